@@ -35,7 +35,7 @@ def shards(tier, seed):
 def requirements(tier):
     r = {f"checked:{k}": 150 for k in KINDS}
     r.update({"w_equal_sized_keys": 300, "w_mixed_0d_nd": 200, "w_unreachable_input_zeros": 50, "w_jac_linearity": 100,
-              "w_jac_rows_vs_grad": 100, "w_stack_absent_key": 100, "w_chunked": 100, "w_one_shot_iterable_argument": 300})
+              "w_jac_rows_vs_grad": 100, "w_stack_absent_key": 100, "w_stack_members_list_keys_in_different_orders": 30, "w_chunked": 100, "w_one_shot_iterable_argument": 300})
     return r
 
 
@@ -333,6 +333,27 @@ def check_stack(case, ctx):
                 break
             if any(i not in sub for sub in subsets):
                 ctx.count("w_stack_absent_key")
+    # members whose gradients DIFFER from member to member and that list the keys in different orders: member k differentiates
+    # y_k = sum_i c[k, i] <w_i, key_i> w.r.t. its own (shuffled) subset of the keys, so row k of the Jacobian of key i is c[k, i] w_i
+    if vio is None and len(keys) >= 1:
+        ws = [torch.tensor(rng.standard_normal(s), dtype=torch.float64) for s in shapes]
+        C = rng.uniform(0.5, 2.0, size=(t, len(keys))) * rng.choice([-1.0, 1.0], size=(t, len(keys)))
+        ys = [sum(float(C[k, i]) * (ws[i] * keys[i]).sum() for i in range(len(keys))) for k in range(t)]
+        orders = [[int(x) for x in rng.permutation(sub)] if sub else [] for sub in subsets]
+        members = [tr.Grad([ys[k]], [keys[i] for i in orders[k]], retain_graph=True) << tr.Init([ys[k]]) for k in range(t)]
+        out2 = guarded(lambda: tr.Stack(members)(tr.EmptyTensorDict()), ctx, case, "Stack")
+        if set(out2.keys()) != {keys[i] for i in union}:
+            vio = ("stack_keys", {"subsets": subsets, "member_key_orders": orders})
+        else:
+            for i in union:
+                exp = torch.stack([float(C[k, i]) * ws[i] if i in subsets[k] else torch.zeros_like(ws[i]) for k in range(t)])
+                got = out2[keys[i]]
+                if got.shape != exp.shape or got.dtype != exp.dtype or not bool(((got - exp).abs() <= 1e-12 * (exp.abs() + 1)).all()):
+                    vio = ("stack_rows", {"key_index": i, "subsets": subsets, "member_key_orders": orders, "got": got.reshape(t, -1).tolist(),
+                                          "expected": exp.reshape(t, -1).tolist()})
+                    break
+            if any(orders[k] != sorted(orders[k]) for k in range(t)) and t >= 2:
+                ctx.count("w_stack_members_list_keys_in_different_orders")
     if vio:
         ctx.violation(vio[0], {**case, "shapes": [list(s) for s in shapes]}, vio[1])
     ctx.count("checked:stack")
